@@ -25,14 +25,20 @@ class Scenario:
             self.start("P0", hold=0)
             self.wait_all()
 
-    def start(self, wid, park=None, hold=0, delay=0, grow=0):
+    def start(self, wid, park=None, hold=0, delay=0, grow=0, signals=False):
         env = dict(vlib.ENV)
+        if signals:
+            env["JH_SIGNALS"] = "1"
         env["LD_PRELOAD"] = crashcheck.SHIM
         env["JSHIM_PATH"] = "jverif-proc.db"
         env["JSHIM_LOG"] = "/dev/null"
         self.started.append(wid)
         extra = []
-        if park:
+        if park and len(park) > 2:
+            # parked on the fifo of another worker: one release wakes both at the same instant
+            self.fifos[wid] = self.fifos[park[2]]
+            env["JSHIM_PARK"] = "%s:%d:%s" % (park[0], park[1], self.fifos[wid])
+        elif park:
             fifo = os.path.join(self.dir, "fifo-" + wid)
             os.mkfifo(fifo)
             self.fifos[wid] = fifo
@@ -127,6 +133,21 @@ def _scenarios(scratch, quick, r):
         sc.release("P1")
         hung = sc.wait_all(timeout=60)
         yield (sc.name, "existing", ["scenario %s existing parked=%s hung=%s" % (sc.name, parked, ",".join(hung) or "-")] + sc.observations(), [w for w in sc.started if w != 'P0'])
+    # S: a handled, non-restarting signal reaches an opener that waits for the lock (the lock call returns EINTR):
+    # it must keep waiting or be refused, never be let in
+    for k in range(1 if quick else 4):
+        sc = Scenario(scratch, "s-signal%d" % k, existing=True)
+        sc.start("P1", hold=350 + 100 * k)
+        inside = sc.wait_logged("P1", "worked")
+        sc.start("P2", hold=2, signals=True)
+        time.sleep(0.12)
+        import signal
+        for _ in range(2 + k):
+            if sc.procs["P2"].poll() is None:
+                sc.procs["P2"].send_signal(signal.SIGUSR1)
+            time.sleep(0.04)
+        hung = sc.wait_all()
+        yield (sc.name, "existing", ["scenario %s existing parked=%s hung=%s" % (sc.name, inside, ",".join(hung) or "-")] + sc.observations(), [w for w in sc.started if w != 'P0'])
     # random start offsets and hold times, no parking
     for k in range(3 if quick else 20):
         sc = Scenario(scratch, "e-rand%d" % k, existing=True)
@@ -144,6 +165,25 @@ def _scenarios(scratch, quick, r):
         sc.release("P1")
         hung = sc.wait_all()
         yield (sc.name, "create", ["scenario %s create parked=%s@%s%d hung=%s" % (sc.name, parked, call, nth, ",".join(hung) or "-")] + sc.observations(), [w for w in sc.started if w != 'P0'])
+    # B: two creators both stopped right after the file came into existence (still empty, nobody holds the lock),
+    # then released together: whoever loses the lock must find the file initialised by the winner and keep it
+    for k in range(4 if quick else 16):
+        sc = Scenario(scratch, "n-both-open%d" % k, existing=False)
+        sc.start("P1", park=("open", 1), hold=r.randrange(0, 5))
+        parked = sc.wait_parked("P1")
+        sc.start("P2", park=("open", 1, "P1"), hold=r.randrange(0, 5))
+        time.sleep(0.15)
+        sc.release("P1")
+        hung = sc.wait_all()
+        yield (sc.name, "create", ["scenario %s create parked=%s@open1x2 hung=%s" % (sc.name, parked, ",".join(hung) or "-")] + sc.observations(), [w for w in sc.started if w != 'P0'])
+    # R: several processes race to create the same missing file (no parking: the window between "file exists, still
+    # empty" and "initialised" is closed by the lock alone; start offsets of 0-2 ms)
+    for k in range(10 if quick else 60):
+        sc = Scenario(scratch, "n-race%d" % k, existing=False)
+        for j in range(4):
+            sc.start("P%d" % (1 + j), hold=r.randrange(0, 3), delay=r.randrange(0, 3))
+        hung = sc.wait_all()
+        yield (sc.name, "create", ["scenario %s create parked=- hung=%s" % (sc.name, ",".join(hung) or "-")] + sc.observations(), [w for w in sc.started if w != 'P0'])
     # H: the holder is the process that created the file; it is fully open (it has committed) when the
     # second opener arrives
     for k, hold in enumerate([150, 400] if quick else [50, 150, 400, 800]):
